@@ -243,7 +243,7 @@ RULE_ADDENDA = {
     "C04": "Also: rule A.pub.4 - a change of the aggregate to or from TRANSIENT_FAILURE is published also before anything was published (all-idle pool starts connecting).",
     "C05": "Also: logging verbosity alternates per shard (every V(level) answers true in verbose shards); locators with odd underscores / empty segments; closeTail (Close, then late completions and picks on the last three pickers); contexts whose deadline is reached while they are not done; rrwrap (cursor moved to 2^16/2^31/2^32 boundaries through the hook VerifSetRRCursor). Round 5: resolver errors of seven dynamic types, sometimes two in a row; part TestC05Stream (interceptor programs, panics only).",
     "C06": "Also: after a panicking pick a lock probe follows (a leaked read lock hangs it); scheduled program sched-rr (waiting round-robin BIND vs READY report vs other callbacks vs plain pick); rule A'.deadwait (a BIND must not stay blocked while every channel of the pool is READY).",
-    "C07": "Also: ROUND_ROBIN in the detector profile with rrstraddle (a response arrives while the BIND waits for its channel); remove-probe (a plain pick started from inside RemoveSubConn must not land on the connection being removed); rule A.repl.idle (an idle replacement is asked to connect again); unresponsiveCalls up to 2^32-1; sched-bindswap. Round 5: failed completions with DoneInfo.BytesReceived set (a client-side deadline error is a deadline error all the same).",
+    "C07": "Also: ROUND_ROBIN in the detector profile with rrstraddle (a response arrives while the BIND waits for its channel); remove-probe (a plain pick started from inside RemoveSubConn must not land on the connection being removed); rule A.repl.idle (an idle replacement is asked to connect again); unresponsiveCalls up to 2^32-1; sched-bindswap. Round 5: failed completions with DoneInfo.BytesReceived set (a client-side deadline error is a deadline error all the same). Round 6: creation probe (a successful completion arrives while the library is inside NewSubConn for a refresh: a response that restarts the window) and crflow (three refreshes of one channel in a row with calls kept open on it).",
     "C08": "Also: resurrect composite (channel shut down during its refresh comes back through the replacement and must be found by the stand-in search); discarded picks (see C01). Round 5: fbtwice (two outages of one home channel, the first stand-in fails later while the second serves).",
     "C09": "Also: the model keeps the rotation as an explicit list (creation order; a channel that reported SHUTDOWN is out, one that comes back through its replacement goes to the end) - expectations stay on after shutdowns; rrdead and emptypool composites; cursor wrap points via VerifSetRRCursor (fewer than 2^63 BIND calls assumed); scheduled program sched-rr (part TestSchedC09). Round 5: rrresurrect (a channel that came back through its replacement is waited for like any other); rrlongwait (a BIND without deadline waits 59-125 s of virtual time and stays waiting).",
     "C10": "Also: the fake connections keep the address slices they are given and read them under their own lock (gRPC does); sibling balancers with other locators are built, used and closed while the workload runs; GCPMultiEndpoint updates whose dial fails after other pools were dialed; Close() while updaters are at work; perturbation level 3 (rare millisecond stalls). Round 5: deaths (every connection reports SHUTDOWN, the pool is re-created, BINDs on stale pickers meanwhile); sharedList (one endpoint list with a duplicate handed to two MultiEndpoints and read by a third goroutine).",
